@@ -13,6 +13,7 @@ pub const RULE: &str = "generated maps: object lines sorted and unsorted (with m
 #[derive(Clone)]
 pub struct Map {
     pub mode: u8,
+    pub general_extra: String,
     pub slider_mult: String,
     pub breaks: Vec<(i64, i64)>,
     pub timing: Vec<(i64, String, u8, i32, bool, u8)>, // time, beat_len text, bank, volume, timing_change, custom
@@ -37,7 +38,7 @@ pub struct Obj {
 impl Map {
     pub fn text(&self, shift: i64) -> String {
         let mut s = String::from("osu file format v14\n\n[General]\n");
-        s += &format!("Mode: {}\n\n[Difficulty]\nSliderMultiplier:{}\n\n[Events]\n", self.mode, self.slider_mult);
+        s += &format!("Mode: {}\n{}\n[Difficulty]\nSliderMultiplier:{}\n\n[Events]\n", self.mode, self.general_extra, self.slider_mult);
         for (a, b) in &self.breaks {
             s += &format!("2,{},{}\n", a + shift, b + shift);
         }
@@ -126,14 +127,16 @@ pub fn gen_map(r: &mut Rng, big: bool) -> Map {
     let mut breaks = vec![];
     let mut bt = r.range(-2000, tmax / 2);
     for _ in 0..nb {
-        let len = *r.pick(&[100i64, 400, 649, 650, 2000, 5000]);
+        // zero-length breaks (`2,2000,2000`) and reversed lines (end before start: clamped up to the start) are legal
+        let len = *r.pick(&[100i64, 400, 649, 650, 2000, 5000, 0, 0, -300, 1]);
         breaks.push((bt, bt + len));
-        bt += len + r.range(0, tmax / 2);
+        bt += len.max(0) + r.range(0, tmax / 2);
     }
     if r.chance(1, 4) {
         breaks.reverse();
     }
-    let nt = r.range(1, 6);
+    // sometimes no timing-point line at all: every lookup then falls back to the defaults
+    let nt = if r.chance(1, 6) { 0 } else { r.range(1, 6) };
     let mut timing = vec![];
     let mut tt = r.range(-1000, 500);
     for i in 0..nt {
@@ -152,7 +155,13 @@ pub fn gen_map(r: &mut Rng, big: bool) -> Map {
             tt += r.range(0, tmax / 3);
         }
     }
-    Map { mode, slider_mult: r.pick(&["1.4", "0.4", "3.6", "2", "1.85"]).to_string(), breaks, timing, objects }
+    let general_extra = match r.below(4) {
+        0 => String::new(),
+        1 => "SampleSet: Soft\nSampleVolume: 40\n".to_string(),
+        2 => "SampleSet: Drum\n".to_string(),
+        _ => "SampleVolume: 5\n".to_string(),
+    };
+    Map { mode, general_extra, slider_mult: r.pick(&["1.4", "0.4", "3.6", "2", "1.85"]).to_string(), breaks, timing, objects }
 }
 
 fn decode(text: &str) -> Option<HitObjects> {
